@@ -139,6 +139,18 @@ theorem solve_structure (target : STab) (s : Solver.St) (h : Solver.solve target
   ⟨(Solver.solve_emits_each_photon_once target s h).1, (Solver.solve_emits_each_photon_once target s h).2,
    Solver.solve_emitter_count target s h⟩
 
+/-- preservation: `solve` keeps its working tableau a real, mutually commuting generating set on `np + ne` qubits (every helper does:
+    gates, row sums, `rref`, the time-reversed measurement), and never changes the register counts -/
+theorem solve_keeps_tableau_good (target : STab) (hg : target.Good) (s : Solver.St) (h : Solver.solve target = .ok s) :
+    s.t.Good ∧ s.t.n = target.n + s.ne ∧ s.np = target.n :=
+  ⟨(Solver.solve_inv target hg s h).good, (Solver.solve_inv target hg s h).n_eq, (Solver.solve_inv target hg s h).np_eq⟩
+
+/-- `rref` (echelon gauge), as the solver uses it between steps, keeps the signed stabilizer group and the `Good`-ness (all sizes) -/
+theorem rref_keeps_group (t t' : STab) (brs : List String) (hg : t.Good) (hr : t.rref = .ok (t', brs)) :
+    t'.n = t.n ∧ t'.Good ∧ ∀ p, t'.Spn p ↔ t.Spn p :=
+  ⟨(STab.rref_spanEq t t' brs hg hr).1.n_eq.symm, (STab.rref_spanEq t t' brs hg hr).2,
+   fun p => ⟨(STab.rref_spanEq t t' brs hg hr).1.sup p, (STab.rref_spanEq t t' brs hg hr).1.sub p⟩⟩
+
 /-- what remains unproved (completeness, Li–Economou–Barnes; false for graphs with an isolated vertex on the current tree — D3):
     for every simple graph without isolated vertex the solver model returns and its final working tableau generates the group of |0…0⟩
     (the driver prints this flag for every input and the harness checks it) -/
@@ -168,6 +180,8 @@ example : ∀ i j, lin3adj i j = lin3adj j i := by
   intro i j; simp only [lin3adj]; cases h1 : (i == 0) <;> cases h2 : (j == 1) <;> cases h3 : (i == 1) <;> cases h4 : (j == 0) <;>
     cases h5 : (j == 2) <;> cases h6 : (i == 2) <;> rfl
 example : solveOk 3 lin3adj 1 1 = true := by decide +kernel
+example : (graphSTab 3 lin3adj).isGood = true := by decide
+example : (match (graphSTab 3 lin3adj).rref with | .ok (t', _) => t'.isGood | .error _ => false) = true := by decide +kernel
 
 /-- the 4-cycle needs two emitters and two time-reversed measurements -/
 def sq4adj : Nat → Nat → Bool := fun i j => (i < 4 && j < 4) && ((i + 1) % 4 == j || (j + 1) % 4 == i)
